@@ -18,10 +18,12 @@ VARIABLES l, sid, cfg,
           open,        \* export calls started and not returned
           anyFail, shutReq, shutRet, late,
           offerErr,    \* items of requests whose send call returned an error
+          rwant, rgot, rlife,  \* restart phase (second incarnation over the same storage): items stored at the restart, items
+                       \* exported by the second incarnation, the user's lifetime there
           ulife        \* "new" | "started" | "stopped": the user's start function (exporterhelper.WithStart) has returned /
                        \* the user's shutdown function (WithShutdown) has been called
 
-mvars == <<l, sid, cfg, before, given, attempts, finalItems, open, anyFail, shutReq, shutRet, late, offerErr, ulife>>
+mvars == <<l, sid, cfg, before, given, attempts, finalItems, open, anyFail, shutReq, shutRet, late, offerErr, ulife, rwant, rgot, rlife>>
 
 E == Log[l]
 Is(e) == l <= Len(Log) /\ E.ev = e /\ l' = l + 1
@@ -29,20 +31,20 @@ SetOf(s) == {s[i] : i \in 1..Len(s)}
 Report(clause, detail) == PrintT(<<"BEH", ToJson([script |-> sid, clause |-> clause, detail |-> detail])>>)
 
 MInit == /\ l = 1 /\ sid = "" /\ cfg = [queue |-> "none"] /\ before = {} /\ given = 0 /\ attempts = <<>>
-         /\ finalItems = {} /\ open = {} /\ anyFail = FALSE /\ shutReq = FALSE /\ shutRet = FALSE /\ late = FALSE /\ offerErr = {} /\ ulife = "new"
+         /\ finalItems = {} /\ open = {} /\ anyFail = FALSE /\ shutReq = FALSE /\ shutRet = FALSE /\ late = FALSE /\ offerErr = {} /\ ulife = "new" /\ rwant = {} /\ rgot = {} /\ rlife = "none"
 
 MReset == /\ Is("reset")
           /\ sid' = E.script /\ cfg' = E.cfg /\ before' = {} /\ given' = 0
           /\ attempts' = [i \in SetOf(E.universe) |-> 0]
-          /\ finalItems' = {} /\ open' = {} /\ anyFail' = FALSE /\ shutReq' = FALSE /\ shutRet' = FALSE /\ late' = FALSE /\ offerErr' = {} /\ ulife' = "new"
+          /\ finalItems' = {} /\ open' = {} /\ anyFail' = FALSE /\ shutReq' = FALSE /\ shutRet' = FALSE /\ late' = FALSE /\ offerErr' = {} /\ ulife' = "new" /\ rwant' = {} /\ rgot' = {} /\ rlife' = "none"
 
 MOfferStart == /\ Is("offer_start") /\ given' = given + E.n
-               /\ UNCHANGED <<sid, cfg, before, attempts, finalItems, open, anyFail, shutReq, shutRet, late, offerErr, ulife>>
+               /\ UNCHANGED <<sid, cfg, before, attempts, finalItems, open, anyFail, shutReq, shutRet, late, offerErr, ulife, rwant, rgot, rlife>>
 
 MOfferEnd == /\ Is("offer_end")
              /\ before' = IF E.res = "ok" /\ ~shutReq THEN before \cup SetOf(E.items) ELSE before
              /\ offerErr' = IF E.res # "ok" THEN offerErr \cup SetOf(E.items) ELSE offerErr
-             /\ UNCHANGED <<sid, cfg, given, attempts, finalItems, open, anyFail, shutReq, shutRet, late, ulife>>
+             /\ UNCHANGED <<sid, cfg, given, attempts, finalItems, open, anyFail, shutReq, shutRet, late, ulife, rwant, rgot, rlife>>
 
 \* (extra clause, not part of C03 / C19: documented order of BaseExporter.Start / Shutdown -- the wrapped exporter is started first
 \*  and shut down last, so the export function runs only inside the user's lifetime)
@@ -50,7 +52,7 @@ MPushStart == /\ Is("push_start")
               /\ (ulife # "started" => Report("ExportWithinUserLifetime", <<ulife, E.items>>))
               /\ attempts' = [i \in DOMAIN attempts |-> IF i \in SetOf(E.items) THEN attempts[i] + 1 ELSE attempts[i]]
               /\ open' = open \cup {E.call}
-              /\ UNCHANGED <<sid, cfg, before, given, finalItems, anyFail, shutReq, shutRet, late, offerErr, ulife>>
+              /\ UNCHANGED <<sid, cfg, before, given, finalItems, anyFail, shutReq, shutRet, late, offerErr, ulife, rwant, rgot, rlife>>
 
 MPushEnd == /\ Is("push_end")
             /\ open' = open \ {E.call}
@@ -60,14 +62,14 @@ MPushEnd == /\ Is("push_end")
             /\ finalItems' = IF E.out \in {"ok", "perm"} \/ ~cfg.retry THEN finalItems \cup SetOf(E.items)
                               ELSE IF Len(E.rem) > 0 THEN finalItems \cup (SetOf(E.items) \ SetOf(E.rem))
                               ELSE finalItems
-            /\ UNCHANGED <<sid, cfg, before, given, attempts, shutReq, shutRet, late, offerErr, ulife>>
+            /\ UNCHANGED <<sid, cfg, before, given, attempts, shutReq, shutRet, late, offerErr, ulife, rwant, rgot, rlife>>
 
 MLate == /\ Is("late_push") /\ late' = TRUE
          /\ Report("NoExportAfterReturn", E.items)
-         /\ UNCHANGED <<sid, cfg, before, given, attempts, finalItems, open, anyFail, shutReq, shutRet, offerErr, ulife>>
+         /\ UNCHANGED <<sid, cfg, before, given, attempts, finalItems, open, anyFail, shutReq, shutRet, offerErr, ulife, rwant, rgot, rlife>>
 
 MShutStart == /\ Is("shutdown_start") /\ shutReq' = TRUE
-              /\ UNCHANGED <<sid, cfg, before, given, attempts, finalItems, open, anyFail, shutRet, late, offerErr, ulife>>
+              /\ UNCHANGED <<sid, cfg, before, given, attempts, finalItems, open, anyFail, shutRet, late, offerErr, ulife, rwant, rgot, rlife>>
 
 \* C03 clauses that are decided at the moment Shutdown returns
 MShutEnd == /\ Is("shutdown_end") /\ shutRet' = TRUE
@@ -77,10 +79,10 @@ MShutEnd == /\ Is("shutdown_end") /\ shutRet' = TRUE
                   LET missing == {i \in before : attempts[i] = 0} IN missing # {} => Report("DrainedMemory", missing))
             /\ ((cfg.queue = "memory" /\ ~anyFail) =>
                   LET twice == {i \in before : attempts[i] > 1} IN twice # {} => Report("ExactlyOnceIfNoFailure", twice))
-            /\ UNCHANGED <<sid, cfg, before, given, attempts, finalItems, open, anyFail, shutReq, late, offerErr, ulife>>
+            /\ UNCHANGED <<sid, cfg, before, given, attempts, finalItems, open, anyFail, shutReq, late, offerErr, ulife, rwant, rgot, rlife>>
 
 MShutHang == /\ Is("shutdown_hang") /\ Report("ShutdownReturns", E.left)
-             /\ UNCHANGED <<sid, cfg, before, given, attempts, finalItems, open, anyFail, shutReq, shutRet, late, offerErr, ulife>>
+             /\ UNCHANGED <<sid, cfg, before, given, attempts, finalItems, open, anyFail, shutReq, shutRet, late, offerErr, ulife, rwant, rgot, rlife>>
 
 \* decided after the settle period: goroutines, durable contents, counters
 MFinal == /\ Is("final")
@@ -101,18 +103,35 @@ MFinal == /\ Is("final")
                                               \* items still stored although they went through an export attempt (finalised or not):
                                               \* the persistent queue keeps or deletes WHOLE requests
                                               storedAttempted |-> Cardinality({i \in SetOf(E.stored) : attempts[i] >= 1})]))
-          /\ UNCHANGED <<sid, cfg, before, given, attempts, finalItems, open, anyFail, shutReq, shutRet, late, offerErr, ulife>>
+          /\ UNCHANGED <<sid, cfg, before, given, attempts, finalItems, open, anyFail, shutReq, shutRet, late, offerErr, ulife, rwant, rgot, rlife>>
 
 MUStart == /\ Is("ustart_end") /\ ulife' = "started"
-           /\ UNCHANGED <<sid, cfg, before, given, attempts, finalItems, open, anyFail, shutReq, shutRet, late, offerErr>>
+           /\ UNCHANGED <<sid, cfg, before, given, attempts, finalItems, open, anyFail, shutReq, shutRet, late, offerErr, rwant, rgot, rlife>>
 MUStop == /\ Is("ushutdown_begin") /\ ulife' = "stopped"
           /\ ((open # {} /\ cfg.queue # "none") => Report("ExportWithinUserLifetime", <<"export in flight when the user's shutdown function is called", open>>))
-          /\ UNCHANGED <<sid, cfg, before, given, attempts, finalItems, open, anyFail, shutReq, shutRet, late, offerErr>>
+          /\ UNCHANGED <<sid, cfg, before, given, attempts, finalItems, open, anyFail, shutReq, shutRet, late, offerErr, rwant, rgot, rlife>>
+\* ---- restart phase (extra clauses, not part of C03 / C19): "still durably stored for the next start" means the next start
+\*      exports it; and the second incarnation too exports only inside the user's lifetime
+RKeep == UNCHANGED <<sid, cfg, before, given, attempts, finalItems, open, anyFail, shutReq, shutRet, late, offerErr, ulife>>
+MRestart == Is("restart") /\ rwant' = SetOf(E.stored) /\ rgot' = {} /\ rlife' = "new" /\ RKeep
+MRUStart == Is("r_ustart_end") /\ rlife' = "started" /\ UNCHANGED <<rwant, rgot>> /\ RKeep
+MRUStop  == Is("r_ushutdown_begin") /\ rlife' = "stopped" /\ UNCHANGED <<rwant, rgot>> /\ RKeep
+MRPushStart == /\ Is("r_push_start") /\ (rlife # "started" => Report("ExportWithinUserLifetime", <<"second incarnation", rlife, E.items>>))
+               /\ UNCHANGED <<rwant, rgot, rlife>> /\ RKeep
+MRPushEnd == Is("r_push_end") /\ rgot' = rgot \cup SetOf(E.items) /\ UNCHANGED <<rwant, rlife>> /\ RKeep
+MRFinal == /\ Is("r_final")
+           /\ LET missing == rwant \ rgot
+                  ghost == rgot \ rwant IN
+              /\ (missing # {} => Report("StoredIsRedelivered", missing))
+              /\ (ghost # {} => Report("RedeliveredWasStored", ghost))
+              /\ (SetOf(E.stored) # {} => Report("RedeliveredIsDeleted", E.stored))
+           /\ UNCHANGED <<rwant, rgot, rlife>> /\ RKeep
 MSkip == /\ l <= Len(Log) /\ E.ev \in {"note"} /\ l' = l + 1
-         /\ UNCHANGED <<sid, cfg, before, given, attempts, finalItems, open, anyFail, shutReq, shutRet, late, offerErr, ulife>>
+         /\ UNCHANGED <<sid, cfg, before, given, attempts, finalItems, open, anyFail, shutReq, shutRet, late, offerErr, ulife, rwant, rgot, rlife>>
 
 MNext == MReset \/ MOfferStart \/ MOfferEnd \/ MPushStart \/ MPushEnd \/ MLate \/ MShutStart \/ MShutEnd
          \/ MShutHang \/ MFinal \/ MSkip \/ MUStart \/ MUStop
+         \/ MRestart \/ MRUStart \/ MRUStop \/ MRPushStart \/ MRPushEnd \/ MRFinal
 MSpec == MInit /\ [][MNext]_mvars
 AllConsumed == TLCGet("stats").diameter - 1 = Len(Log)
 =============================================================================
